@@ -524,7 +524,8 @@ T('bat-fanout-items', ['C04', 'C09'],
   (A, """            for fut in futs.values():
                 fut.set_exception(e)""", """            for _k, fut in futs.items():
                 fut.set_exception(e)"""))
-T('bat-shielded-and-guarded', ['C04', 'C09', 'C11'],
+B('bat-shielded-and-guarded', ['C04', 'C09'], ['C09-R4', 'C04-B9'],   # (was a twin until seeded C04-w13-3 showed the half-repair breaks C04)
+ 
   (A, """        else:
             return await fut
 
@@ -1505,3 +1506,14 @@ def _ack_cm_edits(safe: bool):
     ]
 T('buf-acknowledge-in-a-context-manager', ['C03', 'C07', 'C08'], *_ack_cm_edits(True))
 B('buf-acknowledge-context-manager-acks-timeouts-too', ['C07'], ['C07-W3'], *_ack_cm_edits(False))
+
+# --- seeded wave 13 (clean-ups of error handling and concurrency plumbing) -------------------------------------------
+B('lock-refused-timeout-gives-a-level-back', ['C12', 'C02'], ['C12-R1', 'C02-R1'],
+  (F, "        if not self._thread_lock.acquire(blocking, timeout):\n",
+      "        try:\n            got = self._thread_lock.acquire(blocking, timeout)\n        except ValueError:\n            self._thread_lock.release()\n            raise\n        if not got:\n"))
+T('lock-refused-timeout-is-logged', ['C12', 'C02'],
+  (F, "        if not self._thread_lock.acquire(blocking, timeout):\n",
+      "        try:\n            got = self._thread_lock.acquire(blocking, timeout)\n        except ValueError:\n            _logger.debug('bad timeout %r', timeout)\n            raise\n        if not got:\n"))
+B('bat-dispatcher-supervises-its-batches', ['C04', 'C09'], ['C04-B8', 'C09-R5'],
+  (A, "        while True:\n            tasks = await self._get_next_batch()\n            # Don't wait for the current batch to finish\n            self._daemon_task(  # noqa\n                self._process_batch(tasks),\n                name=\"async-bg-batcher-process-batch\",\n            )\n",
+      "        async with aio.TaskGroup() as batches:\n            while True:\n                tasks = await self._get_next_batch()\n                batches.create_task(\n                    self._process_batch(tasks),\n                    name=\"async-bg-batcher-process-batch\",\n                )\n"))
